@@ -7,6 +7,7 @@ package main
 // schedules; it is a data-race detector, not the deciding step of any property.
 
 import (
+	"encoding/json"
 	"fmt"
 	"os"
 	"path/filepath"
@@ -130,5 +131,89 @@ func TestRaceC07(t *testing.T) {
 	ev.Distinct(fmt.Sprint("tokens=", len(nonces)))
 	ev.Rule = fmt.Sprintf("%d goroutines x %d Generate+Check calls on one factory under the Go race detector; all nonces distinct, every token accepted with its identity (sampling pass for unsynchronised state in the factory)", workers, per)
 	ev.Sample(map[string]any{"tokens": workers * per})
+	ev.Finish()
+}
+
+// TestRaceC06: concurrent HTTP API requests with different credentials through one mux (the
+// real server runs handlers concurrently).  Every response is judged on its own: a refused
+// request must be refused and without effect even while authorised requests of other
+// clients are in flight (no state may travel between requests).  Under the race detector.
+func TestRaceC06(t *testing.T) {
+	ev := verifev.New("C06", "race")
+	root := verifx.Scratch("race06")
+	defer os.RemoveAll(root)
+	st, dir := newAgent(root, 1, "", "", "")
+	lib := verifx.CheapDir(dir, 1)
+	must(lib.AddUser("root", "rootpw", true))
+	workers := 6
+	for w := 0; w < workers; w++ {
+		must(lib.AddUser(fmt.Sprintf("user%d", w), fmt.Sprintf("pw%d", w), false))
+		must(lib.AddUser(fmt.Sprintf("victim%d", w), "victimpw", false))
+	}
+	mux, err := newWebHandler(st)
+	must(err)
+	tAdmin := login(mux, "root", "rootpw")
+	rounds := 60
+	if ev.Thorough() {
+		rounds = 600
+	}
+	var wg sync.WaitGroup
+	for w := 0; w < workers; w++ {
+		wg.Add(1)
+		go func(w int) {
+			defer wg.Done()
+			me, victim := fmt.Sprintf("user%d", w), fmt.Sprintf("victim%d", w)
+			tok := login(mux, me, fmt.Sprintf("pw%d", w))
+			pj := func(ep string, f map[string]any) (int, []byte) {
+				b, _ := json.Marshal(f)
+				return post(mux, "/api/"+ep, b, [2]string{})
+			}
+			for k := 0; k < rounds; k++ {
+				tmp := fmt.Sprintf("tmp%d", w)
+				// authorised (admin): add and remove a private temporary user
+				if c, _ := pj("add", map[string]any{"session": tAdmin, "username": tmp, "password": "Tmp-pw-1"}); c != 200 {
+					ev.Violation("concurrent-authorised-request-refused", fmt.Sprintf("admin add of %s: status %d", tmp, c), nil)
+				}
+				// refused: a user session must not manage others, with every body shape that omits fields
+				for _, f := range []map[string]any{
+					{"session": tok, "username": victim, "newpassword": "Hacked-1"},
+					{"username": victim, "newpassword": "Hacked-2"},
+					{"newpassword": "Hacked-3", "username": victim, "oldpassword": "wrong"},
+					{"session": tok, "username": victim},
+				} {
+					if c, body := pj("update", f); c == 200 {
+						ev.Violation("concurrent-unauthorised-update-succeeded", fmt.Sprintf("worker %d: update of %s with %v succeeded: %s", w, victim, f, body), nil)
+					}
+				}
+				if c, _ := pj("remove", map[string]any{"session": tok, "username": victim}); c == 200 {
+					ev.Violation("concurrent-unauthorised-remove-succeeded", "user session removed another user", nil)
+				}
+				if c, body := pj("list", map[string]any{"session": tok}); c == 200 || leaksList(body) {
+					ev.Violation("concurrent-list-disclosed", "user session listed users", nil)
+				}
+				// authorised: own password change and back
+				if c, _ := pj("update", map[string]any{"session": tok, "username": me, "newpassword": fmt.Sprintf("pw%d", w)}); c != 200 {
+					ev.Violation("concurrent-authorised-request-refused", fmt.Sprintf("own update of %s: status %d", me, c), nil)
+				}
+				if c, _ := pj("remove", map[string]any{"session": tAdmin, "username": tmp}); c != 200 {
+					ev.Violation("concurrent-authorised-request-refused", fmt.Sprintf("admin remove of %s: status %d", tmp, c), nil)
+				}
+				ev.Add("evaluations", 9)
+			}
+		}(w)
+	}
+	wg.Wait()
+	for w := 0; w < workers; w++ {
+		if ok, _, _, _, _ := lib.Authenticate(fmt.Sprintf("victim%d", w), "victimpw"); !ok {
+			ev.Violation("concurrent-unauthorised-effect", fmt.Sprintf("victim%d's password changed although every request against it had to be refused", w), nil)
+		}
+		if ok, _, _, _, _ := lib.Authenticate(fmt.Sprintf("user%d", w), fmt.Sprintf("pw%d", w)); !ok {
+			ev.Violation("concurrent-own-update-lost", fmt.Sprintf("user%d cannot log in with the password it set itself", w), nil)
+		}
+	}
+	ev.Distinct("workers=6")
+	ev.Distinct(fmt.Sprint("rounds=", rounds))
+	ev.Rule = fmt.Sprintf("%d concurrent clients x %d rounds x 9 API requests (authorised admin add/remove, own update; refused foreign update in 4 body shapes, remove, list) through one mux under the Go race detector; every response judged individually, victims' passwords unchanged at the end (sampling pass)", workers, rounds)
+	ev.Sample(map[string]any{"requests_per_round": 9})
 	ev.Finish()
 }
